@@ -266,6 +266,20 @@ class LedgerSim:
         ts = rb.ts + max(1, op.get('dt', 60))
         now = ts + max(-30, op.get('clock', 0))
         view = view_at(self.cs, rb.id)
+        if self.cfg.get('nopow'):
+            # blocks that enter state the way bulk download adds them: no proof of work, no validation
+            block = consensus.construct_block_for_mining(view, list(txs), key(op.get('miner', 0) % N_KEYS).pk, ts,
+                                                         op.get('data', '').encode(), op.get('nonce0', 0))
+            bid = rules.block_id(block)
+            if bid in self.chain.blocks:
+                self.res.bump('duplicate_accepted')
+                return
+            self.cs = self.cs.add_block_no_validation(block)
+            self.chain.add(block)
+            self.stored.append(bid)
+            self.block_objs[bid] = block
+            self.res.bump('accepted')
+            return
         try:
             block = mine_honest(view, txs, key(op.get('miner', 0) % N_KEYS), ts, nonce0=op.get('nonce0', 0))
         except Unminable:
